@@ -726,6 +726,8 @@ Proof.
   pose proof Hinv as (I1 & I2 & I3 & I4 & I5 & I6 & I7 & I8 & I9 & I10).
   assert (Stop : walk_rel base (Ok (x, nh, rest)) (Ok (rest, nh, fr))).
   { unfold walk_rel. split; [reflexivity|]. split; [reflexivity|]. split; [now exists fl|assumption]. }
+  assert (Hle : s_len rest <= s_len base) by lia.
+  clear Hinv.
   cbn [Ipv6Extensions.loop Cut.walk andb].
   destruct (nh =? IPN_HOP_BY_HOP) eqn:E0.
   { assert (R : refilled fl nh = false) by (apply N.eqb_eq in E0; subst nh; reflexivity).
@@ -736,12 +738,12 @@ Proof.
     destruct (x_route x) as [rt|] eqn:Ert; cbn [is_some].
     - rewrite I3. destruct (x_fdest x) as [fd|] eqn:Efd; cbn [is_some]; [exact Stop|].
       unfold Ipv6Extensions.raw_step.
-      rewrite subN_ok by lia. cbn [bind].
+      rewrite (subN_ok _ _ Hle). cbn [bind].
       pose proof (raw_shape rest Hok) as Sh.
       destruct (Ipv6RawExtHeaderSlice.from_slice rest) as [sl|[l|ce]|b]; cbn [map_len_err bind];
         try contradiction; [|reflexivity|reflexivity].
       destruct Sh as (S8 & Sle & Soff & Sth).
-      rewrite idx_from_eq by lia. rewrite subN_ok by lia. cbn [bind]. rewrite subU_rest by lia. cbn [bind].
+      rewrite (idx_from_eq _ _ Sle). rewrite (subN_ok _ _ Sle). cbn [bind]. rewrite (subU_rest _ _ Sle). cbn [bind].
       unfold Ipv6RawExtHeaderSlice.next_header. rdok sl 0. rewrite Sth. cbn [bind].
       apply IH; [|now apply bytes_ok_rest|rewrite s_len_drop; lia].
       unfold inv6, fill_add, exts6_len, exts6_any, Ipv6Extensions.is_fragmenting_payload in *.
@@ -753,12 +755,12 @@ Proof.
       all: try (rewrite ?Bool.orb_true_r; cbn [orb]; destruct (0 <? _) eqn:Z; [reflexivity|lia]).
     - rewrite I1. destruct (x_dest x) as [d|] eqn:Ed; cbn [is_some]; [exact Stop|].
       unfold Ipv6Extensions.raw_step.
-      rewrite subN_ok by lia. cbn [bind].
+      rewrite (subN_ok _ _ Hle). cbn [bind].
       pose proof (raw_shape rest Hok) as Sh.
       destruct (Ipv6RawExtHeaderSlice.from_slice rest) as [sl|[l|ce]|b]; cbn [map_len_err bind];
         try contradiction; [|reflexivity|reflexivity].
       destruct Sh as (S8 & Sle & Soff & Sth).
-      rewrite idx_from_eq by lia. rewrite subN_ok by lia. cbn [bind]. rewrite subU_rest by lia. cbn [bind].
+      rewrite (idx_from_eq _ _ Sle). rewrite (subN_ok _ _ Sle). cbn [bind]. rewrite (subU_rest _ _ Sle). cbn [bind].
       unfold Ipv6RawExtHeaderSlice.next_header. rdok sl 0. rewrite Sth. cbn [bind].
       apply IH; [|now apply bytes_ok_rest|rewrite s_len_drop; lia].
       unfold inv6, fill_add, exts6_len, exts6_any, Ipv6Extensions.is_fragmenting_payload in *.
@@ -772,12 +774,12 @@ Proof.
   { cbn [orb]. rewrite I2.
     destruct (x_route x) as [rt|] eqn:Ert; cbn [is_some]; [exact Stop|].
     unfold Ipv6Extensions.raw_step.
-      rewrite subN_ok by lia. cbn [bind].
+      rewrite (subN_ok _ _ Hle). cbn [bind].
       pose proof (raw_shape rest Hok) as Sh.
       destruct (Ipv6RawExtHeaderSlice.from_slice rest) as [sl|[l|ce]|b]; cbn [map_len_err bind];
         try contradiction; [|reflexivity|reflexivity].
       destruct Sh as (S8 & Sle & Soff & Sth).
-      rewrite idx_from_eq by lia. rewrite subN_ok by lia. cbn [bind]. rewrite subU_rest by lia. cbn [bind].
+      rewrite (idx_from_eq _ _ Sle). rewrite (subN_ok _ _ Sle). cbn [bind]. rewrite (subU_rest _ _ Sle). cbn [bind].
       unfold Ipv6RawExtHeaderSlice.next_header. rdok sl 0. rewrite Sth. cbn [bind].
       apply IH; [|now apply bytes_ok_rest|rewrite s_len_drop; lia].
     unfold inv6, fill_add, exts6_len, exts6_any, Ipv6Extensions.is_fragmenting_payload in *.
@@ -792,12 +794,12 @@ Proof.
   cbn [orb].
   destruct (nh =? IPN_FRAG) eqn:E44.
   { rewrite I4. destruct (x_frag x) as [fg|] eqn:Efg; cbn [is_some]; [exact Stop|].
-    rewrite subN_ok by lia. cbn [bind].
+    rewrite (subN_ok _ _ Hle). cbn [bind].
     pose proof (frag_shape rest) as Sh.
     destruct (Ipv6FragmentHeaderSlice.from_slice rest) as [sl|[l|ce]|b]; cbn [map_len_err bind];
       try contradiction; [|reflexivity|reflexivity].
     destruct Sh as (S8 & Sle & Soff).
-    rewrite idx_from_eq by lia. rewrite subN_ok by lia. cbn [bind]. rewrite subU_rest by lia. cbn [bind].
+    rewrite S8. rewrite (idx_from_eq _ _ Sle). rewrite (subN_ok _ _ Sle). cbn [bind]. rewrite (subU_rest _ _ Sle). cbn [bind].
     unfold Ipv6FragmentHeaderSlice.next_header. rdok sl 0.
     destruct (frag_is_fragmenting_ok sl S8) as (fb & Efb). rewrite Efb. cbn [bind].
     apply IH; [|now apply bytes_ok_rest|rewrite s_len_drop; lia].
@@ -811,12 +813,12 @@ Proof.
     all: try (rewrite ?Bool.orb_true_r; cbn [orb]; destruct (0 <? _) eqn:Z; [reflexivity|lia]). }
   destruct (nh =? IPN_AUTH) eqn:E51; [|exact Stop].
   rewrite I5. destruct (x_auth x) as [au|] eqn:Eau; cbn [is_some]; [exact Stop|].
-  rewrite subN_ok by lia. cbn [bind].
+  rewrite (subN_ok _ _ Hle). cbn [bind].
   pose proof (auth_shape rest Hok) as Sh.
   destruct (IpAuthHeaderSlice.from_slice rest) as [sl|[l|ce]|b]; cbn [map_len_err bind];
     try contradiction; [|reflexivity|reflexivity].
   destruct Sh as (S12 & Sle & Soff & Sth & _).
-  rewrite idx_from_eq by lia. rewrite subN_ok by lia. cbn [bind]. rewrite subU_rest by lia. cbn [bind].
+  rewrite (idx_from_eq _ _ Sle). rewrite (subN_ok _ _ Sle). cbn [bind]. rewrite (subU_rest _ _ Sle). cbn [bind].
   unfold IpAuthHeaderSlice.next_header. rdok sl 0. rewrite Sth. cbn [bind].
   apply IH; [|now apply bytes_ok_rest|rewrite s_len_drop; lia].
   unfold inv6, fill_add, exts6_len, exts6_any, Ipv6Extensions.is_fragmenting_payload in *.
@@ -828,156 +830,3 @@ Proof.
   all: try (rewrite ?Bool.orb_true_r; cbn [orb]; destruct (0 <? _) eqn:Z; [reflexivity|lia]).
 Qed.
 
-Definition exts_rel (nh0 : N) (hp : slice) (h : res (exts6 * N * slice))
-  (s : res (ipv6_exts_slice * N * slice)) : Prop :=
-  match h, s with
-  | Ok (x, nh', r), Ok (xs, nh'', r') =>
-      r' = r /\ nh'' = nh' /\
-      Ipv6Extensions.is_fragmenting_payload x = Ok (x6_fragmented xs) /\
-      win_of (x6_slice xs) = (s_off hp, exts6_len x) /\
-      x6_first xs = (if exts6_any x then Some nh0 else None) /\ s_off hp <= s_off r
-  | Err e, Err e' => e = e'
-  | _, _ => False
-  end.
-
-Lemma exts_end nh0 hp h w :
-  walk_rel hp h w ->
-  exts_rel nh0 hp h
-    (let* w' := w in
-     let '(rest, next_header, fragmented) := w' in
-     let* used := subN (s_len hp) (s_len rest) in
-     let* sl := (if used <=? s_len hp then Ok (fst hp, take used (snd hp)) else Bug SITE_INDEX) in
-     Ok (mkIpv6Exts (if negb (s_len rest =? s_len hp) then Some nh0 else None) fragmented sl,
-         next_header, rest)).
-Proof.
-  unfold walk_rel, exts_rel.
-  destruct h as [[[x nh'] r]|e|b]; destruct w as [[[r'' nh''] fr'']|e'|b']; cbn [bind]; try tauto.
-  intros (-> & -> & (fl' & I) & Hok).
-  destruct I as (_ & _ & _ & _ & _ & I6 & I7 & I8 & I9 & _).
-  rewrite subN_ok by lia. cbn [bind].
-  destruct (s_len hp - s_len r <=? s_len hp) eqn:E; [|lia]. cbn [bind].
-  cbn [x6_fragmented x6_slice x6_first].
-  split; [reflexivity|]. split; [reflexivity|]. split; [exact I6|]. split.
-  - rewrite win_take by lia. unfold s_off. f_equal. lia.
-  - split; [|lia]. rewrite I8.
-    destruct (0 <? exts6_len x) eqn:Z; destruct (s_len r =? s_len hp) eqn:Y; cbn [negb]; try reflexivity; lia.
-Qed.
-
-Lemma inv6_empty hp : inv6 hp exts6_empty fill_none false hp.
-Proof.
-  unfold inv6, exts6_empty, fill_none, exts6_len, exts6_any, Ipv6Extensions.is_fragmenting_payload.
-  cbn. repeat split; lia.
-Qed.
-
-Lemma exts_agree nh0 hp : bytes_ok (snd hp) ->
-  exts_rel nh0 hp (Ipv6Extensions.from_slice nh0 hp) (Cut.exts_from_slice true nh0 hp).
-Proof.
-  intros Hok. unfold Ipv6Extensions.from_slice, Cut.exts_from_slice.
-  assert (Hf : forall r : slice, s_len r <= s_len hp -> (N.to_nat (s_len r) < S (length (snd hp)))%nat).
-  { intros r H. unfold s_len, len in *. lia. }
-  destruct (IPN_HOP_BY_HOP =? nh0).
-  - pose proof (raw_shape hp Hok) as Sh.
-    destruct (Ipv6RawExtHeaderSlice.from_slice hp) as [sl|[l|ce]|b]; cbn [bind]; try contradiction;
-      [|reflexivity|reflexivity].
-    destruct Sh as (S8 & Sle & Soff & Sth).
-    rewrite idx_from_eq by lia.
-    destruct (s_len sl <=? s_len hp) eqn:E; [|lia]. cbn [bind].
-    unfold Ipv6RawExtHeaderSlice.next_header. rdok sl 0. rewrite Sth. cbn [bind].
-    apply exts_end. apply walk_agree.
-    + unfold inv6, fill_none, exts6_len, exts6_any, Ipv6Extensions.is_fragmenting_payload.
-      cbn [f_dest f_route f_fdest f_frag f_auth x_hbh x_dest x_route x_fdest x_frag x_auth is_some olen orb].
-      rewrite s_len_drop. repeat split; try lia.
-      * destruct (0 <? _) eqn:Z; [reflexivity|lia].
-      * unfold s_off. cbn [fst]. lia.
-    + now apply bytes_ok_rest.
-    + apply Hf. rewrite s_len_drop. lia.
-  - cbn [bind]. apply exts_end. apply walk_agree; [apply inv6_empty|assumption|apply Hf; lia].
-Qed.
-
-(* ---- IPv6 ------------------------------------------------------------------- *)
-Definition cut_v6_tail (header hp : slice) (src : len_source) : res ipv6_slice :=
-  let* nh := Ipv6HeaderSlice.next_header header in
-  let* x :=
-    match Cut.exts_from_slice true nh hp with
-    | Err (ELen e) => Err (ELen (le_add_offset (le_set_src e src) 40))
-    | r => r
-    end in
-  let '(exts, payload_ip_number, payload) := x in
-  Ok (mkIpv6Slice header exts (mkIpPayload payload_ip_number (x6_fragmented exts) src payload)).
-
-Definition ip6_rel (s : slice) (h : res (ip_headers * ip_payload)) (r : res ipv6_slice) : Prop :=
-  match h, r with
-  | Ok (ih, p), Ok v =>
-      p = v6_payload v /\ s_off s <= s_off (ipp_slice p) /\
-      hview_net (HnIp ih) = Ok (conv_net (NtIpv6 v))
-  | Err e, Err e' => e = e'
-  | _, _ => False
-  end.
-
-Lemma v6_tail_agree s header hp src :
-  bytes_ok (snd hp) -> s_len header = 40 -> s_off hp = s_off header + 40 -> s_off s <= s_off hp ->
-  ip6_rel s (IpHeaders.v6_exts header hp src) (cut_v6_tail header hp src).
-Proof.
-  intros Hok H40 Hoff Hs. unfold IpHeaders.v6_exts, cut_v6_tail, Ipv6HeaderSlice.next_header.
-  rdok header 6.
-  pose proof (exts_agree v hp Hok) as X. unfold exts_rel in X.
-  destruct (Ipv6Extensions.from_slice v hp) as [[[x nh'] r]|[l|ce]|b];
-    destruct (Cut.exts_from_slice true v hp) as [[[xs nh''] r']|[l'|ce']|b']; cbn [bind]; try contradiction;
-    try discriminate.
-  - destruct X as (-> & -> & Fr & Win & First & Off). rewrite Fr. cbn [bind].
-    unfold ip6_rel. cbn [v6_payload ipp_slice]. split; [reflexivity|]. split; [lia|].
-    unfold hview_net, conv_net, Ipv6HeaderSlice.next_header. rewrite E. cbn [bind]. rewrite Fr. cbn [bind].
-    cbn [v6_header v6_exts]. rewrite Win, First, Hoff. reflexivity.
-  - injection X as ->. reflexivity.
-  - injection X as ->. reflexivity.
-Qed.
-
-Lemma cut_v6_finish_eq s header :
-  Cut.v6_finish true s header =
-  (let* pl := Ipv6HeaderSlice.payload_length header in
-   let* hp :=
-     (if (0 =? pl) && (40 <? s_len s) then
-        let* n := subN (s_len s) 40 in
-        let* p := subU s 40 n in
-        Ok (p, LsSlice)
-      else
-        let expected_len := 40 + pl in
-        if s_len s <? expected_len then lerr expected_len (s_len s) LsSlice LyIpv6Packet
-        else
-          let* p := subU s 40 pl in
-          Ok (p, LsIpv6HeaderPayloadLen)) in
-   cut_v6_tail header (fst hp) (snd hp)).
-Proof.
-  unfold Cut.v6_finish, cut_v6_tail.
-  destruct (Ipv6HeaderSlice.payload_length header); cbn [bind]; try reflexivity.
-  destruct (if (0 =? a) && (40 <? s_len s) then _ else _) as [[hp src]|e|b]; reflexivity.
-Qed.
-
-Lemma v6_agree s : bytes_ok (snd s) ->
-  ip6_rel s (IpHeaders.from_ipv6_slice s) (Cut.v6_from_slice true s).
-Proof.
-  intros Hok. unfold IpHeaders.from_ipv6_slice, Cut.v6_from_slice, Ipv6Header.from_slice.
-  pose proof (v6hdr_shape s) as Sh.
-  destruct (Ipv6HeaderSlice.from_slice s) as [h|e|b]; cbn [bind]; try contradiction; [|reflexivity].
-  destruct Sh as (H40 & Hle & Hoff & Hsub).
-  rewrite idx_from_eq by lia. cbn [bind]. rewrite cut_v6_finish_eq.
-  unfold Ipv6HeaderSlice.payload_length.
-  destruct (rd16_ok h 4) as (pl & Epl); [lia|]. rewrite Epl. cbn [bind].
-  destruct ((0 =? pl) && (40 <? s_len s)) eqn:Ez.
-  - rewrite subN_ok by lia. cbn [bind]. rewrite subU_rest by lia. cbn [bind fst snd].
-    apply v6_tail_agree; auto.
-    + now apply bytes_ok_rest.
-    + unfold s_off in *. cbn [fst]. lia.
-    + unfold s_off. cbn [fst]. lia.
-  - rewrite s_len_drop.
-    destruct (s_len s <? 40 + pl) eqn:El.
-    { destruct (s_len s - 40 <? pl) eqn:El'; [|lia]. cbn [bind].
-      replace (pl + 40) with (40 + pl) by lia. reflexivity. }
-    destruct (s_len s - 40 <? pl) eqn:El'; [lia|].
-    rewrite (subU_eq (fst s + 40, drop 40 (snd s)) 0 pl) by (rewrite s_len_drop; lia).
-    rewrite subU_eq by lia. cbn [bind fst snd]. rewrite drop_drop0, N.add_0_r.
-    apply v6_tail_agree; auto.
-    + cbn [snd]. apply bytes_ok_take. now apply bytes_ok_drop.
-    + unfold s_off in *. cbn [fst]. lia.
-    + unfold s_off. cbn [fst]. lia.
-Qed.
